@@ -610,6 +610,14 @@ impl<'a> Walker<'a> {
                     // a panic inside the debugger is a finding, not a reason to lose the run
                     let arr = match std::panic::catch_unwind(std::panic::AssertUnwindSafe(|| p.slice(pcx, None, n as usize))) {
                         Ok(Some(a)) => a,
+                        Ok(None) if p.target_type_size == Some(0) => {
+                            // elements of a zero-sized type occupy no memory: PointerValue::slice has nothing to read. Such a type has one
+                            // value only, determined by the type; the length (read by the debugger from the fat pointer) is what is checked
+                            return match exp {
+                                Some((Ty::Slice(t), Val::Seq(vs))) if vs.len() == n as usize => C::Seq { ty, items: vs.iter().map(|v| exp_canon(self.decls, t, v)).collect() },
+                                _ => C::Bad(format!("{ty}: {n} zero-sized elements, the program holds another number")),
+                            };
+                        }
                         Ok(None) => return C::Bad(format!("{ty}: slice failed")),
                         Err(_) => return C::Bad(format!("{ty}: PANIC in PointerValue::slice")),
                     };
